@@ -367,6 +367,9 @@ class FuncGen:
             if op in self.cfg.no_ops:
                 op = "+"
             a, b = self.pick(env, ty), self.pick(env, ty)
+            if op == "/":
+                # divisor: a non-zero constant (float division by zero is outside the defined semantics)
+                b = self.const(ty, r.choice([1.0, -1.0, 0.5, 2.0, 3.25, -7.75, 100.0, 0.1, 1e-3, 255.0]))
             env.add(self.emit(ir.Binop(a, op, b, self.name("ft"), ty)))
             self.tag("float-arith")
 
@@ -830,6 +833,10 @@ def gen_args(r, module, fname, n=4):
             elif ty.is_integer:
                 vec.append(boundary_int(r, ty) if k else r.choice([0, 1, 2, 3]))
             else:
-                vec.append(r.choice([0.0, 1.0, -1.5, 2.5, 100.25, -0.0, 1e6, 3.0e-2]))
+                v = r.choice([0.0, 1.0, -1.5, 2.5, 100.25, -0.0, 1e6, 3.0e-2])
+                if ty.bits == 32:
+                    import struct
+                    v = struct.unpack("<f", struct.pack("<f", v))[0]
+                vec.append(v)
         out.append(vec)
     return out
